@@ -12,7 +12,10 @@
                                                       glyph = nil | (a b c d)
      wd cff cid top (fmat...) (fd...) (glyph...) cmap
      wd glyf upem top (glyph...) widths names cmap    cmap = (0) | (4 c...) | (12 c...)
-     rh os2value have gid n (height...)                                     *)
+     rh os2value have gid n (height...)
+     cfont cid top (fmat...) (fd...) (glyph...) enc (probe...) claims   cff.Font's own methods;
+                                                      enc = nil | (gid...)
+     clone (op...)                                    op = (set s k) | (elem s k j), s = 0 FontInfo, 1 Outlines *)
 
 (* ---- numbers ---- *)
 let rec pos_shift (p : positive) (k : int) : positive = if k <= 0 then p else pos_shift (XO p) (k - 1)
@@ -254,6 +257,83 @@ let out_cols (boxes : rect list) (wq : q list) : sx =
   let (ws, ls) = m_hmtx_columns boxes wq in
   L [A "cols"; L (List.map az ws); L (List.map az ls)]
 
+
+(* cff.Font's own queries *)
+let run_cfont cid top fmats fdsel glyphs enc probes claims : sx =
+  let f = sx_cff cid top fmats fdsel glyphs in
+  let probes = List.map sx_int (lst probes) in
+  let claims = lst claims in
+  let n = int_of_nat (cf_numglyphs f) in
+  let ws = m_cfont_widths f in
+  let wmag gid (w : q) : q =
+    let fa = glyph_matrix_abs f f.cf_top gid in
+    (match glyph_matrix f f.cf_top gid with
+     | Ok m -> qmul_ (qabs_ w) (qmul_ (qfactor_mag m fa) q_thousand)
+     | _ -> q_one) in
+  let gwp = find_claim claims "gwp" in
+  let out_gwp = List.map2 (fun g c -> let gid = nat_of_int g in
+                  let w = (match m_cff_glyph_width f gid with Ok w -> w | _ -> q_one) in
+                  verdict_num c (m_cfont_glyph_width_pdf f gid) (wmag gid w)) probes gwp in
+  let fbp_mag = list_max_q (List.init n (fun g -> cff_glyph_bbox_pdf_mag f f.cf_top (nat_of_int g))) { qnum = Z0; qden = XH } in
+  let out_fbp = (match find_claim claims "fbp" with [c] -> verdict_rect c (m_cfont_font_bbox_pdf f) fbp_mag | _ -> failwith "fbp") in
+  let out_wpdf =
+    (match find_claim claims "wpdf", m_cfont_widths_pdf f with
+     | _, Panic -> A "panic"
+     | [L cl], Ok l ->
+       if List.length cl <> List.length l then L [A "bad-length"; ai (List.length l)]
+       else begin
+         let bad = ref None in
+         List.iteri (fun i (c, v) ->
+           let fa = glyph_matrix_abs f f.cf_top (nat_of_int i) in
+           let mag = qmul_ (qabs_ (List.nth ws i)) (qmul_ fa.m0 q_thousand) in
+           if !bad = None && not (check1 c v mag) then bad := Some (L [A "bad"; ai i; approx v])) (List.combine cl l);
+         (match !bad with None -> A "ok" | Some b -> b)
+       end
+     | _, Ok l -> L [A "bad-shape"; ai (List.length l)]
+     | _ -> A "err") in
+  let out_wmap =
+    (match find_claim claims "wmap", m_cfont_widths_map_pdf f with
+     | _, None -> A "nil"
+     | [L cl], Some m ->
+       let tbl = Hashtbl.create 16 in
+       List.iter2 (fun (k, v) (g : glyph) -> Hashtbl.replace tbl (int_of_n k) (v, g.g_width)) m f.cf_glyphs;
+       let qm = qmul_ (qfactor_mag f.cf_top (mat_abs f.cf_top)) q_thousand in
+       let bad = ref None in
+       if List.length cl <> Hashtbl.length tbl then bad := Some (L [A "bad-size"; ai (Hashtbl.length tbl)]);
+       List.iter (fun e -> match e with
+         | L [k; c] ->
+           (match Hashtbl.find_opt tbl (sx_int k) with
+            | None -> if !bad = None then bad := Some (L [A "bad-key"; k])
+            | Some (v, w) ->
+              if !bad = None && not (check1 c v (qmul_ (qabs_ w) qm)) then bad := Some (L [A "bad"; k; approx v]))
+         | _ -> failwith "wmap entry") cl;
+       (match !bad with None -> A "ok" | Some b -> b)
+     | _, Some _ -> A "not-nil") in
+  let encl = if is_nil enc then [] else List.map sx_nat (lst enc) in
+  L [ L [A "n"; ai n];
+      L (A "widths" :: List.map dyadic ws);
+      L [A "bbox"; out_o out_rect (m_outlines_bbox f)];
+      L [A "enc"; (match m_builtin_encoding encl f.cf_glyphs with None -> A "nil" | Some l -> L (List.map an l))];
+      L [A "fbp"; out_fbp]; L [A "wpdf"; out_wpdf]; L (A "gwp" :: out_gwp); L [A "wmap"; out_wmap] ]
+
+(* Clone on the store  FontInfo = [FontName; FontMatrix (array); ItalicAngle],
+   Outlines = [Glyphs; Encoding; Private] (references to objects 0, 1, 2) *)
+let run_clone ops : sx =
+  let zl l = List.map z_of_int l in
+  let s0 = { st_structs = [ [FScalar (z_of_int 7); FArray (zl [1; 0; 0; 1; 0; 0]); FScalar Z0];
+                            [FRef (nat_of_int 0); FRef (nat_of_int 1); FRef (nat_of_int 2)] ];
+             st_objs = [ zl [500; 600; 700]; zl [0; 0; 0; 0]; zl [11; 12] ] } in
+  let f0 = { p_info = nat_of_int 0; p_outl = nat_of_int 1 } in
+  let before = cfont_observe s0 f0 in
+  L (List.map (fun op ->
+      let (s1, f1) = m_clone s0 f0 in
+      let loc which = if sx_int which = 0 then f1.p_info else f1.p_outl in
+      let s2 = (match op with
+        | L [A "set"; which; k] -> st_assign s1 (loc which) (sx_nat k) (FScalar (z_of_int 424242))
+        | L [A "elem"; which; k; j] -> st_write_elem s1 (loc which) (sx_nat k) (sx_nat j) (z_of_int 424242)
+        | _ -> failwith "bad clone op") in
+      ab (cfont_observe s2 f0 <> before)) (lst ops))
+
 let () = main_loop (fun c ->
   match c with
   | [A "extent"; cmds] ->
@@ -276,6 +356,8 @@ let () = main_loop (fun c ->
            | None -> L [A "cols"; A "nil"; A "nil"])]
      | Panic, _ | _, Panic -> A "panic"
      | _ -> A "err")
+  | [A "cfont"; cid; top; fmats; fdsel; glyphs; enc; probes; claims] -> run_cfont cid top fmats fdsel glyphs enc probes claims
+  | [A "clone"; ops] -> run_clone ops
   | [A "rh"; os2v; have; gid; n; heights] ->
     let hs = List.map sx_z (lst heights) in
     let height (g : nat) : z outcome = (match List.nth_opt hs (int_of_nat g) with Some h -> Ok h | None -> Panic) in
